@@ -114,7 +114,7 @@ def ops : List (String × Op) := [
       let a ← pIn; let es ← pInt; let ee ← pInt; pArrow; let r ← pAns pOutPLoc
       match a with
       | none => pure (clauses [("constructor-must-refuse", r.isNone)])
-      | some x => pure (clauses [("extend-absolute", okExtendAbs x es ee r)])),
+      | some x => pure (clauses [("extend-absolute", okExtendAbs x es ee r), ("extend-normal", okExtendAbsNormal x r)])),
   ("extrel", do
       let a ← pIn; let up ← pInt; let down ← pInt; pArrow; let r ← pAns pOutPLoc
       match a with
